@@ -171,6 +171,54 @@ def eval_misc(case):
         except ValueError:
             return Res(outcome='ValueError')
         return Res(viols=[{'kind': 'get-on-no-zones-accepted'}])
+    if kind == 'negative-saving-wall':
+        # A definition whose DAYLIGHT offset is the smaller one (Irish style: STANDARD IST +0100 from the last Sunday
+        # of March, DAYLIGHT GMT +0000 from the last Sunday of October), both component orders.  Wall side only:
+        # every wall reading around the onsets, both folds, against the pre-images under the stated rules.
+        def comp(kind_, dtstart, month, offfrom, offto, name):
+            return ["BEGIN:%s" % kind_, "DTSTART:%s" % dtstart, "RRULE:FREQ=YEARLY;BYMONTH=%d;BYDAY=-1SU" % month,
+                    "TZOFFSETFROM:%s" % offfrom, "TZOFFSETTO:%s" % offto, "TZNAME:%s" % name, "END:%s" % kind_]
+        a = comp("STANDARD", "19900325T010000", 3, "+0000", "+0100", "IST")
+        b = comp("DAYLIGHT", "19901028T020000", 10, "+0100", "+0000", "GMT")
+        comps = a + b if case[1] == 0 else b + a
+        text = "\r\n".join(["BEGIN:VTIMEZONE", "TZID:Test/Eire"] + comps + ["END:VTIMEZONE"]) + "\r\n"
+        z = tz.tzical(io.StringIO(text)).get()
+
+        def lastsun(y, m):
+            d = D.date(y, m, 31)
+            while d.weekday() != 6:
+                d -= D.timedelta(1)
+            return D.datetime.combine(d, D.time(1))         # both onsets are at 01:00 UTC
+
+        def ref(u):
+            return (3600, 'IST') if lastsun(u.year, 3) <= u < lastsun(u.year, 10) else (0, 'GMT')
+        n = 0
+        kinds = set()
+        for y in (1995, 2021):
+            for m in (3, 10):
+                t0 = lastsun(y, m)
+                for i in range(-16, 17):
+                    w = t0 + D.timedelta(minutes=15 * i)
+                    pre = sorted(w - D.timedelta(seconds=o) for o in (0, 3600) if ref(w - D.timedelta(seconds=o))[0] == o)
+                    n += 1
+                    # datetime_exists is not asked here: it goes through fromutc, which is wrong for such zones on the
+                    # pinned tree (DESIGN 7.2, open item) - the UTC side needs its own recorded finding first
+                    got = tz.datetime_ambiguous(w, z)
+                    if got != (len(pre) == 2) and 'exists-ambiguous' not in kinds:
+                        kinds.add('exists-ambiguous')
+                        viols.append({'kind': 'negative-saving-ambiguous-wrong', 'order': case[1], 'wall': w,
+                                      'got': got, 'preimages': len(pre)})
+                    if not pre:
+                        continue
+                    for f in (0, 1):
+                        u = pre[min(f, len(pre) - 1)]
+                        x = w.replace(tzinfo=z, fold=f)
+                        n += 1
+                        if (x.utcoffset().total_seconds(), x.tzname()) != ref(u) and ('wall', f) not in kinds:
+                            kinds.add(('wall', f))
+                            viols.append({'kind': 'negative-saving-wall-reading-wrong', 'order': case[1], 'wall': w, 'fold': f,
+                                          'got': (x.utcoffset().total_seconds(), x.tzname()), 'expected': ref(u)})
+        return Res(viols=viols, trans=n)
     # malformed
     name, text = case[1], case[2]
     try:
@@ -246,7 +294,7 @@ def run(ctx):
             sh['offsets'] = offs
             cs += [(sh, vi) for vi in (0, 1, 2, 5)]
     ctx.explore('specs', cs, 'eval_spec', chunk=8)
-    misc = [('two-zones',), ('single',), ('empty-file',)] + malformed_menu()
+    misc = [('two-zones',), ('single',), ('empty-file',), ('negative-saving-wall', 0), ('negative-saving-wall', 1)] + malformed_menu()
     ctx.explore('tzid-and-malformed', misc, 'eval_misc', serial=True)
     ctx.coverage_extra.update({
         'bounds': {'deviation_bound_k': k, 'rule_specs': len(shs), 'variants': len(VARIANTS), 'years': [FIRST_YEAR] + list(YEARS)},
